@@ -76,11 +76,13 @@ impl Regex {
             }
 
             // we\re not adding the escape char to the output, because the output is not a regexp
-            if c == '\\' {
+            if c == '\\' && !escape {
                 escape = true;
                 continue;
             }
 
+            // the escape applies to a single character only
+            escape = false;
             result.push(c);
         }
 
